@@ -196,9 +196,10 @@ def norm_cond(c):
         return ("is", c[1], 0)
     if c[0] == "notin_variants" and c[2] == (0,):
         return ("is", c[1], 1)
-    if c[0] in ("in",) and len(c[2]) == 1:
+    if c[0] in ("in", "notin") and len(c[2]) == 1:
+        # `match n { 0 => .., _ => .. }` and `if n == 0 {..} else {..}` are the same test
         x, y = sorted([c[1], ("int", c[2][0], "usize")], key=repr)
-        return ("eq", x, y)
+        return ("eq" if c[0] == "in" else "ne", x, y)
     if c[0] in ("eq", "ne"):
         a, b = c[1], c[2]
         a = ("int", a[1], "usize") if a[0] == "int" else a
